@@ -35,6 +35,7 @@ type cframe struct {
 	info *types.Info
 	env  map[types.Object]*cval
 	ret  *cval
+	rets []*cval // a return of several values
 	done bool
 	res  []types.Object
 }
@@ -53,9 +54,39 @@ func (ce *constEvaluator) evalPkgVar(fi *core.FuncInfo, v *types.Var) (*cval, bo
 			for _, sp := range gd.Specs {
 				vs := sp.(*ast.ValueSpec)
 				for i, nm := range vs.Names {
-					if fi.Pkg.TypesInfo.Defs[nm] == v && i < len(vs.Values) {
+					if fi.Pkg.TypesInfo.Defs[nm] == v && i < len(vs.Values) && len(vs.Values) == len(vs.Names) {
 						fr := &cframe{info: fi.Pkg.TypesInfo, env: map[types.Object]*cval{}}
 						return ce.expr(fr, vs.Values[i])
+					}
+					// var a, b = f(): the i-th result of a function of the module called with constants
+					if fi.Pkg.TypesInfo.Defs[nm] == v && len(vs.Values) == 1 && len(vs.Names) > 1 {
+						call, ok := ast.Unparen(vs.Values[0]).(*ast.CallExpr)
+						if !ok {
+							return nil, false
+						}
+						info := fi.Pkg.TypesInfo
+						fr := &cframe{info: info, env: map[types.Object]*cval{}}
+						var args []*cval
+						for _, a := range call.Args {
+							x, ok := ce.expr(fr, a)
+							if !ok {
+								return nil, false
+							}
+							args = append(args, x)
+						}
+						fn := calleeFunc(info, call)
+						if fn == nil {
+							return nil, false
+						}
+						hf := ce.p.FuncOf(fn)
+						if hf == nil || hf.Decl.Body == nil || hf.Decl.Recv != nil {
+							return nil, false
+						}
+						all, ok := ce.runAll(hf.Pkg.TypesInfo, hf.Decl.Type, hf.Decl.Body, args, nil)
+						if !ok || i >= len(all) || all[i] == nil {
+							return nil, false
+						}
+						return all[i], true
 					}
 				}
 			}
@@ -109,6 +140,15 @@ func (ce *constEvaluator) call(info *types.Info, c *ast.CallExpr, args []*cval) 
 // run evaluates a function body (a declared function, or a function literal called on the spot, which
 // sees the variables of the frame it is written in).
 func (ce *constEvaluator) run(info *types.Info, ft *ast.FuncType, body *ast.BlockStmt, args []*cval, outer map[types.Object]*cval) (*cval, bool) {
+	all, ok := ce.runAll(info, ft, body, args, outer)
+	if !ok || len(all) != 1 {
+		return nil, false
+	}
+	return all[0], true
+}
+
+// runAll is run for a function of any number of results.
+func (ce *constEvaluator) runAll(info *types.Info, ft *ast.FuncType, body *ast.BlockStmt, args []*cval, outer map[types.Object]*cval) ([]*cval, bool) {
 	fr := &cframe{info: info, env: map[types.Object]*cval{}}
 	for o, v := range outer {
 		fr.env[o] = v
@@ -148,10 +188,17 @@ func (ce *constEvaluator) run(info *types.Info, ft *ast.FuncType, body *ast.Bloc
 		return nil, false
 	}
 	if fr.ret != nil {
-		return fr.ret, true
+		return []*cval{fr.ret}, true
 	}
-	if len(fr.res) == 1 {
-		return fr.env[fr.res[0]], true
+	if len(fr.rets) > 0 {
+		return fr.rets, true
+	}
+	if len(fr.res) >= 1 {
+		var out []*cval
+		for _, o := range fr.res {
+			out = append(out, fr.env[o])
+		}
+		return out, true
 	}
 	return nil, false
 }
@@ -389,7 +436,13 @@ func (ce *constEvaluator) stmt(fr *cframe, s ast.Stmt) bool {
 			}
 			fr.ret = x
 		} else if len(v.Results) > 1 {
-			return false
+			for _, re := range v.Results {
+				x, ok := ce.expr(fr, re)
+				if !ok {
+					return false
+				}
+				fr.rets = append(fr.rets, x)
+			}
 		}
 		return true
 	case *ast.EmptyStmt:
@@ -468,6 +521,15 @@ func (ce *constEvaluator) expr(fr *cframe, e ast.Expr) (*cval, bool) {
 	case *ast.Ident:
 		if x, ok := fr.env[fr.info.ObjectOf(v)]; ok {
 			return x, true
+		}
+		// a package-level table that nothing in the module assigns after its initialisation
+		if pv, ok := fr.info.ObjectOf(v).(*types.Var); ok && pv.Pkg() != nil && pv.Parent() == pv.Pkg().Scope() && ce.depth < 6 {
+			if fi := ce.anyFuncOf(pv.Pkg()); fi != nil && ce.pkgVarStable(pv) {
+				ce.depth++
+				x, ok := ce.evalPkgVar(fi, pv)
+				ce.depth--
+				return x, ok
+			}
 		}
 		return nil, false
 	case *ast.BinaryExpr:
@@ -553,6 +615,9 @@ func (ce *constEvaluator) expr(fr *cframe, e ast.Expr) (*cval, bool) {
 		}
 		return nil, false
 	case *ast.IndexExpr:
+		if mv, ok := ce.mapLookup(fr, v); ok {
+			return mv, true
+		}
 		base, ok := ce.expr(fr, v.X)
 		if !ok {
 			return nil, false
@@ -725,4 +790,109 @@ func isStringSeq(t types.Type) bool {
 	}
 	b, ok := el.Underlying().(*types.Basic)
 	return ok && b.Info()&types.IsString != 0
+}
+
+// anyFuncOf: some function of the package (evalPkgVar finds the syntax through it).
+func (ce *constEvaluator) anyFuncOf(pk *types.Package) *core.FuncInfo {
+	for _, fi := range ce.p.Funcs {
+		if fi.Obj.Pkg() == pk {
+			return fi
+		}
+	}
+	return nil
+}
+
+// pkgVarStable: no function of the module assigns the variable, an element of it, or takes its address.
+func (ce *constEvaluator) pkgVarStable(v *types.Var) bool {
+	stable := true
+	for _, fi := range ce.p.Funcs {
+		if fi.Decl.Body == nil || fi.Obj.Pkg() != v.Pkg() {
+			continue
+		}
+		info := fi.Pkg.TypesInfo
+		ast.Inspect(fi.Decl.Body, func(n ast.Node) bool {
+			switch w := n.(type) {
+			case *ast.AssignStmt:
+				for _, l := range w.Lhs {
+					if root := rootOf(l); root != nil && info.ObjectOf(root) == v {
+						stable = false
+					}
+				}
+			case *ast.IncDecStmt:
+				if root := rootOf(w.X); root != nil && info.ObjectOf(root) == v {
+					stable = false
+				}
+			case *ast.UnaryExpr:
+				if w.Op == token.AND {
+					if root := rootOf(w.X); root != nil && info.ObjectOf(root) == v {
+						stable = false
+					}
+				}
+			}
+			return true
+		})
+	}
+	return stable
+}
+
+// mapLookup: m[k] with m a stable package-level map written as a literal with constant keys and k a
+// value known here; a missing key yields the zero value.
+func (ce *constEvaluator) mapLookup(fr *cframe, ix *ast.IndexExpr) (*cval, bool) {
+	id, ok := ast.Unparen(ix.X).(*ast.Ident)
+	if !ok {
+		return nil, false
+	}
+	pv, ok := fr.info.ObjectOf(id).(*types.Var)
+	if !ok || pv.Pkg() == nil || pv.Parent() != pv.Pkg().Scope() {
+		return nil, false
+	}
+	mt, ok := pv.Type().Underlying().(*types.Map)
+	if !ok || !ce.pkgVarStable(pv) {
+		return nil, false
+	}
+	k, ok := ce.expr(fr, ix.Index)
+	if !ok {
+		return nil, false
+	}
+	fi := ce.anyFuncOf(pv.Pkg())
+	if fi == nil {
+		return nil, false
+	}
+	for _, f := range fi.Pkg.Syntax {
+		for _, d := range f.Decls {
+			gd, ok := d.(*ast.GenDecl)
+			if !ok || gd.Tok != token.VAR {
+				continue
+			}
+			for _, sp := range gd.Specs {
+				vs := sp.(*ast.ValueSpec)
+				for i, nm := range vs.Names {
+					if fi.Pkg.TypesInfo.Defs[nm] != pv || i >= len(vs.Values) {
+						continue
+					}
+					cl, ok := ast.Unparen(vs.Values[i]).(*ast.CompositeLit)
+					if !ok {
+						return nil, false
+					}
+					lfr := &cframe{info: fi.Pkg.TypesInfo, env: map[types.Object]*cval{}}
+					for _, el := range cl.Elts {
+						kv, ok := el.(*ast.KeyValueExpr)
+						if !ok {
+							return nil, false
+						}
+						kk, ok := ce.expr(lfr, kv.Key)
+						if !ok || kk.k != k.k {
+							return nil, false
+						}
+						if (kk.k == 'i' && kk.n == k.n) || (kk.k == 's' && kk.s == k.s) {
+							return ce.expr(lfr, kv.Value)
+						}
+					}
+					z := zeroOf(mt.Elem())
+					return z, z != nil
+				}
+			}
+		}
+	}
+	return nil, false
 }
